@@ -765,6 +765,61 @@ def bodyAtDo (ft : Feat) (b : BodyRd) : BodyRd :=
   let b := if ft.answLog then (getBody b).2 else b
   if ft.dump then dumpRequestBody b else b
 
+/-! ## round 4: the shared-client switch, and a transport that serves several requests at once (volleys) -/
+
+/-- guns/http/base.go prepareClientPool: the number of shared clients WarmUp builds for the `shared-client` section
+`{enabled, client-number}`; `none` = no pool at all: every instance keeps the client NewBaseGun gave it (Bind replaces it
+only when the warm-up result carries a pool). `enabled: false` decides alone, whatever `client-number` says. -/
+def sharedPool (enabled : Bool) (clientNumber : Int) : Option Int :=
+  if !enabled then none
+  else if clientNumber < 1 then some 1
+  else some clientNumber
+
+/-- the transport (index) the requests of gun `g` go through: its own without a pool, else the pool's client `clientOf` -/
+def transportOfGun (pool : Option Int) (g : Nat) : Nat :=
+  match pool with
+  | none => g
+  | some n => clientOf n.toNat g
+
+/-- net/http (library, observed): idle connections a transport keeps for ONE host — MaxIdleConnsPerHost, where 0 stands for
+Go's DefaultMaxIdleConnsPerHost = 2, capped by MaxIdleConns (0 = no limit). Pandora's default leaves both at 0: two. -/
+def idleLimit (t : Transport) : Nat :=
+  let perHost := if t.maxIdleConnsPerHost = 0 then 2 else t.maxIdleConnsPerHost.toNat
+  if t.maxIdleConns = 0 then perHost else min perHost t.maxIdleConns.toNat
+
+/-- what ONE transport sees of a volley: `k` requests that reach the target are in flight together (as many guns share the
+transport and shoot at once; a per-instance client never sees more than one), `closing` of them ask to close; the volley
+starts `pause` after the answers of the one before, the target answers after `delay` -/
+structure Volley where
+  k : Nat
+  closing : Nat
+  pause : Nat
+  delay : Nat
+  deriving DecidableEq, Repr
+
+/-- state of one transport: (idle connections in its pool, connections that carried a request so far). The idle connections
+are gone when the pause reached the idle timeout; the volley takes idle connections as far as they go and dials the rest;
+afterwards the connections of the requests that did not ask to close come back (when the transport keeps connections and
+the answers were not lost), and the pool keeps at most `idleLimit` of them — the surplus is closed. -/
+def vpoolStep (t : Transport) (st : Nat × Nat) (v : Volley) : Nat × Nat :=
+  let idle0 := if idleExpired t v.pause then 0 else st.1
+  let reused := min idle0 v.k
+  let back := if keeps t && !responseLost t v.delay then v.k - v.closing else 0
+  (min (idleLimit t) (idle0 - reused + back), st.2 + (v.k - reused))
+
+def vpoolRunFrom (t : Transport) (st : Nat × Nat) (vs : List Volley) : Nat × Nat :=
+  vs.foldl (vpoolStep t) st
+
+/-- connections the target sees from one transport over the volleys `vs` -/
+def vpoolRun (t : Transport) (vs : List Volley) : Nat := (vpoolRunFrom t (0, 0) vs).2
+
+/-- a single request as a volley of one (what a per-instance client sees of its instance) -/
+def TFlight.volley (f : TFlight) : Volley :=
+  { k := if f.arrived then 1 else 0, closing := if f.arrived && f.close then 1 else 0, pause := f.pause, delay := f.delay }
+
+/-- the least a transport can do for volleys: every connection that is in flight at once is one connection -/
+def volleyFloor (vs : List Volley) : Nat := vs.foldl (fun m v => max m v.k) 0
+
 /-! ## transport + server (net/http; observed, not proved) -/
 
 def validValueByte (c : Nat) : Bool := (decide (32 ≤ c) && c != 127) || c == 9
